@@ -87,6 +87,13 @@ def run(ctx, R, tier):
     R.check(ok, "C19-R1", "Proxy|uri-as-text", "the proxy state carries the URI as text and re-parses it with core.URI", pg.loc(),
             "the proxy's URI does not travel as str(uri) / is not re-parsed")
 
+    ph, pe = ctx.fn("Pyro5.client.Proxy.__hash__"), ctx.fn("Pyro5.client.Proxy.__eq__")
+    hr = [n for n in walk_no_nested(ph.node) if isinstance(n, ast.Return)]
+    okh = len(hr) == 1 and unparse(hr[0].value) == "hash(self._pyroUri)"
+    oke = any(isinstance(n, ast.Compare) and len(n.ops) == 1 and isinstance(n.ops[0], ast.Eq) and
+              {unparse(n.left), unparse(n.comparators[0])} == {"self._pyroUri", "%s._pyroUri" % pe.params[1]} for n in walk_no_nested(pe.node))
+    R.check(okh and oke, "C19-R1", "Proxy|eq-hash-from-uri", "proxies compare and hash by their URI", ph.loc(), "Proxy.__eq__/__hash__ no longer derive from the proxy's URI")
+
     # ---------------------------------------------------------------- R2
     for fld in fields:
         bad = []
